@@ -5,8 +5,8 @@ Run after any change to the generators, oracles or shapes.  usage: revalidate.py
 import json, os, subprocess, sys, time
 V = os.path.dirname(os.path.dirname(os.path.abspath(__file__)))
 VH = f"{V}/harness/target/release/vh"
-PROPS = sys.argv[1:] or ["C01", "C03", "C04", "C06", "C07", "C08", "C09", "C10", "C11", "C12", "C18", "C19"]
-UNIV = {"fix": None, "exh": None, "gram": 1_000_000, "imp": 200_000}
+PROPS = sys.argv[1:] or ["C01", "C03", "C04", "C06", "C07", "C08", "C09", "C10", "C11", "C12", "C18", "C19", "C13"]
+UNIV = {"fix": None, "exh": None, "gram": 1_000_000, "imp": 200_000, "nl": 300_000}
 path = f"{V}/known-indices.json"
 try:
     known = {}
@@ -22,7 +22,15 @@ env.pop("VH_KNOWN", None)
 for p in PROPS:
     t0 = time.time()
     rows = []
-    for gen in UNIV:
+    if p == "C13":
+        out = f"{V}/work/validate-C13"
+        subprocess.run(["rm", "-rf", out])
+        subprocess.run([VH, "range", "validate", "0", out], env=env, stdout=subprocess.DEVNULL)
+        for l in open(f"{out}/oracle.jsonl"):
+            r = json.loads(l)
+            rows.append([r["gen"], r["idx"], r["hash"]])
+        subprocess.run(["rm", "-rf", out])
+    for gen in ([] if p == "C13" else UNIV):
         out = f"{V}/work/validate-{p}-{gen}"
         subprocess.run(["rm", "-rf", out])
         n = UNIV[gen] or 10**9
@@ -33,6 +41,8 @@ for p in PROPS:
         subprocess.run(["rm", "-rf", out])
     # two cfg variants of one index give two rows: keep all
     known[p] = sorted(set(map(tuple, rows)))
+    if p == "C01":
+        known["C02"] = known[p]
     print(p, len(known[p]), "known failing cases", round(time.time() - t0), "s", flush=True)
     with open(path, "w") as f:
         f.write("{\n")
